@@ -17,7 +17,7 @@ func zzShape(pkt []byte) {
 	if len(pkt) <= 5 {
 		return
 	}
-	ds, ss, ts := []int{0, 8}, []int{0}, []byte{0, 0x40}
+	ds, ss, ts := []int{0, 8}, []int{0}, []byte{0, 0x40, 0xc0}
 	if verifThorough() {
 		ds, ss, ts = []int{0, 1, 8, 20}, []int{0, 4}, []byte{0, 2, 0x40, 0xc0}
 	}
